@@ -306,6 +306,11 @@ def run(R):
         pass
     elif any(n.endswith("::any") for n in names) and child == ["sqlgrep::model::Value::is_not_null"] and not adapters:
         R.ok("C06.admit", "any_result", "iter().any(|x| x.is_not_null()) over all columns", anyf.loc())
+    elif not adapters and not child and any(short(c.name).endswith("::any") and len(c.args) > 1 and c.args[1].get("k") == "const" and
+                                            re.search(r"\bValue::is_not_null\}?$", (c.args[1].get("ty") or "") + " " + str(c.args[1].get("v", ""))) or
+                                            (short(c.name).endswith("::any") and any(x.endswith("Value::is_not_null") for x in (c.func.get("fn_args") or [])))
+                                            for c in anyf.calls):
+        R.ok("C06.admit", "any_result", "iter().any(Value::is_not_null) over all columns", anyf.loc())
     elif any(n.endswith("::all") for n in names) and child == ["sqlgrep::model::Value::is_null"] and not adapters and \
             any(st["rv"]["k"] == "unop" and st["rv"]["op"] == "Not" for _, st in anyf.stmts()):
         R.ok("C06.admit", "any_result", "!iter().all(|x| x.is_null()) over all columns", anyf.loc())
